@@ -134,6 +134,10 @@ pub struct Agg {
     pub nontrivial_hashes: HashSet<u64>,
     pub state_hashes: HashSet<u64>,
     pub peak_mem: usize,
+    /// largest CPU time one case needed in a worker (seconds) and its index: the headroom
+    /// of the CPU watchdog is judged against this
+    pub max_case_cpu: (f64, u64),
+    pub max_call_cpu: f64,
     pub harness_errors: Vec<String>,
 }
 
@@ -179,6 +183,14 @@ fn stats_from_json(v: &Value) -> Stats {
     s
 }
 
+fn own_cpu_seconds() -> f64 {
+    let mut ts = libc::timespec { tv_sec: 0, tv_nsec: 0 };
+    unsafe {
+        libc::clock_gettime(libc::CLOCK_PROCESS_CPUTIME_ID, &mut ts);
+    }
+    ts.tv_sec as f64 + ts.tv_nsec as f64 * 1e-9
+}
+
 /// `cfbsim worker --check C --tier T --seed S --shard i/W [--start n] [--end n]`
 pub fn worker_main(args: &[String]) -> i32 {
     let get = |k: &str| args.iter().position(|a| a == k).and_then(|i| args.get(i + 1)).cloned();
@@ -193,6 +205,7 @@ pub fn worker_main(args: &[String]) -> i32 {
     let total = get("--end").and_then(|s| s.parse().ok()).unwrap_or((def.cases)(tier));
     let known = known_sigs(def.id);
     crate::driver::install_panic_hook();
+    crate::driver::callwatch::start(if tier == Tier::Thorough { 90 } else { 30 });
     // memory ceiling for the whole worker
     unsafe {
         let lim = libc::rlimit { rlim_cur: 6 << 30, rlim_max: 6 << 30 };
@@ -209,6 +222,7 @@ pub fn worker_main(args: &[String]) -> i32 {
     let mut states: HashSet<u64> = HashSet::new();
     let mut cases = 0u64;
     let mut peak_mem = 0usize;
+    let mut max_cpu = (0f64, 0u64);
     let mut samples = 0;
     let mut idx = start.max(si);
     // align to shard
@@ -221,7 +235,12 @@ pub fn worker_main(args: &[String]) -> i32 {
         let case = (def.gen)(seed, idx, tier);
         alloc_count::reset_peak();
         crate::subcase::clear();
+        let cpu0 = own_cpu_seconds();
         let o = (def.run)(&case, &known);
+        let used = own_cpu_seconds() - cpu0;
+        if used > max_cpu.0 {
+            max_cpu = (used, idx);
+        }
         crate::subcase::clear();
         let pk = alloc_count::peak();
         peak_mem = peak_mem.max(pk);
@@ -265,7 +284,7 @@ pub fn worker_main(args: &[String]) -> i32 {
     dumpset(&st_file, &states);
     agg.state_hashes.clear();
     let _ = std::fs::remove_file(&subfile);
-    writeln!(out, "SUMMARY {}", json!({"cases": cases, "stats": agg.to_json(), "peak_mem": peak_mem, "nt_file": nt_file, "st_file": st_file})).unwrap();
+    writeln!(out, "SUMMARY {}", json!({"cases": cases, "stats": agg.to_json(), "peak_mem": peak_mem, "max_cpu": max_cpu.0, "max_cpu_idx": max_cpu.1, "max_call": crate::driver::callwatch::max_call_seconds(), "nt_file": nt_file, "st_file": st_file})).unwrap();
     out.flush().unwrap();
     0
 }
@@ -300,10 +319,11 @@ pub fn exec_case_main() -> i32 {
         }
     };
     crate::driver::install_panic_hook();
+    crate::driver::callwatch::start(90);
     unsafe {
         let lim = libc::rlimit { rlim_cur: 6 << 30, rlim_max: 6 << 30 };
         libc::setrlimit(libc::RLIMIT_AS, &lim);
-        let cpu = libc::rlimit { rlim_cur: 600, rlim_max: 600 };
+        let cpu = libc::rlimit { rlim_cur: 3600, rlim_max: 3600 };
         libc::setrlimit(libc::RLIMIT_CPU, &cpu);
     }
     let known: BTreeSet<String> = if std::env::var("VERIF_IGNORE_KNOWN").is_ok() { BTreeSet::new() } else { known_sigs(def.id) };
@@ -368,7 +388,9 @@ pub fn exec_case_subprocess(case: &Case, ignore_known: bool, timeout_s: u64) -> 
     });
     let outp = match rx.recv_timeout(Duration::from_secs(timeout_s)) {
         Ok(s) => {
-            let _ = child.wait();
+            if child.wait().ok().and_then(|st| st.code()) == Some(crate::driver::callwatch::HANG_EXIT) {
+                return ExecResult { sigs: vec!["hang@process".into()], msgs: vec![format!("one library call used more than {} CPU-seconds", crate::driver::callwatch::limit_s())], trace: String::new(), harness: None };
+            }
             s
         }
         Err(_) => {
@@ -628,7 +650,7 @@ pub fn run_cases(def: &CheckDef, tier: Tier, seed: u64, nworkers: u64, end: Opti
     }
     let mut res = RunResult {
         violations: vec![],
-        agg: Agg { cases: 0, stats: Stats::default(), nontrivial_hashes: HashSet::new(), state_hashes: HashSet::new(), peak_mem: 0, harness_errors: vec![] },
+        agg: Agg { cases: 0, stats: Stats::default(), nontrivial_hashes: HashSet::new(), state_hashes: HashSet::new(), peak_mem: 0, max_case_cpu: (0.0, 0), max_call_cpu: 0.0, harness_errors: vec![] },
         samples: vec![],
     };
     let readset = |path: &str, set: &mut HashSet<u64>| {
@@ -680,6 +702,11 @@ pub fn run_cases(def: &CheckDef, tier: Tier, seed: u64, nworkers: u64, end: Opti
                         res.agg.cases += v["cases"].as_u64().unwrap_or(0);
                         merge_stats(&mut res.agg.stats, &stats_from_json(&v["stats"]));
                         res.agg.peak_mem = res.agg.peak_mem.max(v["peak_mem"].as_u64().unwrap_or(0) as usize);
+                        res.agg.max_call_cpu = res.agg.max_call_cpu.max(v["max_call"].as_f64().unwrap_or(0.0));
+                        let mc = v["max_cpu"].as_f64().unwrap_or(0.0);
+                        if mc > res.agg.max_case_cpu.0 {
+                            res.agg.max_case_cpu = (mc, v["max_cpu_idx"].as_u64().unwrap_or(0));
+                        }
                         readset(v["nt_file"].as_str().unwrap_or(""), &mut res.agg.nontrivial_hashes);
                         readset(v["st_file"].as_str().unwrap_or(""), &mut res.agg.state_hashes);
                         workers[slot].summary = true;
@@ -695,9 +722,11 @@ pub fn run_cases(def: &CheckDef, tier: Tier, seed: u64, nworkers: u64, end: Opti
                 }
                 w.done = true;
                 live -= 1;
-                let _ = w.child.wait();
+                let status = w.child.wait().ok();
                 if !w.summary {
-                    // died without a summary: abort in the last announced case
+                    // died without a summary: abort in the last announced case, or (exit code
+                    // HANG_EXIT) one library call that used more CPU than the per-call limit
+                    let call_hang = status.and_then(|s| s.code()) == Some(crate::driver::callwatch::HANG_EXIT);
                     let idx = w.current.unwrap_or(0);
                     let sub = w.subfile.as_ref().and_then(|p| crate::subcase::read(p));
                     if let Some(p) = &w.subfile {
@@ -707,11 +736,15 @@ pub fn run_cases(def: &CheckDef, tier: Tier, seed: u64, nworkers: u64, end: Opti
                     let case = sub.unwrap_or_else(|| (def.gen)(seed, idx, tier));
                     res.violations.push((
                         idx,
-                        Violation { property: def.id.into(), rule: "abort".into(), site: "process".into(), msg: format!("worker process died (abort, stack overflow or memory limit) while executing case {}{}", idx, if pinpointed { " - the single run in progress was recovered" } else { "" }), step: 0 },
+                        if call_hang {
+                            Violation { property: def.id.into(), rule: "hang".into(), site: "process".into(), msg: format!("one library call in case {} used more than {} CPU-seconds and the worker was ended{}", idx, crate::driver::callwatch::limit_s(), if pinpointed { " - the single run in progress was recovered" } else { "" }), step: 0 }
+                        } else {
+                            Violation { property: def.id.into(), rule: "abort".into(), site: "process".into(), msg: format!("worker process died (abort, stack overflow or memory limit) while executing case {}{}", idx, if pinpointed { " - the single run in progress was recovered" } else { "" }), step: 0 }
+                        },
                         case,
                     ));
                     res.agg.cases += 1;
-                    if respawns < 64 {
+                    if respawns < 64 && res.violations.iter().filter(|(_, v, _)| v.site == "process").count() <= 6 {
                         respawns += 1;
                         let shard = w.shard;
                         let mut child = spawn_worker(def, tier, seed, shard, nworkers, idx + 1, end);
@@ -739,7 +772,7 @@ pub fn run_cases(def: &CheckDef, tier: Tier, seed: u64, nworkers: u64, end: Opti
             // a worker is always CPU-bound: no CPU progress for 40 s of wall time inside a case
             // means it is blocked (e.g. a self-deadlock on the library's lock)
             let blocked = w.last_cpu_change.elapsed() > Duration::from_secs(40) && w.wall_at_marker.elapsed() > Duration::from_secs(40);
-            let stalled = blocked || cpu - w.cpu_at_marker >= def.cpu_limit_s as f64 || w.wall_at_marker.elapsed() > Duration::from_secs(300.max(def.cpu_limit_s * 4));
+            let stalled = blocked || cpu - w.cpu_at_marker >= def.cpu_limit_s as f64 || w.wall_at_marker.elapsed() > Duration::from_secs(3600.max(def.cpu_limit_s * 10));
             if stalled {
                 let idx = w.current.unwrap();
                 let _ = w.child.kill();
@@ -755,11 +788,11 @@ pub fn run_cases(def: &CheckDef, tier: Tier, seed: u64, nworkers: u64, end: Opti
                 let case = sub.unwrap_or_else(|| (def.gen)(seed, idx, tier));
                 res.violations.push((
                     idx,
-                    Violation { property: def.id.into(), rule: "hang".into(), site: "process".into(), msg: format!("case {} used more than {} CPU-seconds (or 300 s wall) and was killed{}", idx, def.cpu_limit_s, if pinpointed { " - the single run in progress was recovered" } else { "" }), step: 0 },
+                    Violation { property: def.id.into(), rule: "hang".into(), site: "process".into(), msg: format!("case {} used more than {} CPU-seconds (or an hour of wall time) and was killed{}", idx, def.cpu_limit_s, if pinpointed { " - the single run in progress was recovered" } else { "" }), step: 0 },
                     case,
                 ));
                 res.agg.cases += 1;
-                if respawns < 64 {
+                if respawns < 64 && res.violations.iter().filter(|(_, v, _)| v.site == "process").count() <= 6 {
                     respawns += 1;
                     let shard = w.shard;
                     let mut child = spawn_worker(def, tier, seed, shard, nworkers, idx + 1, end);
@@ -850,6 +883,7 @@ pub fn run_main(args: &[String]) -> i32 {
     let cores = std::thread::available_parallelism().map(|n| n.get() as u64).unwrap_or(4);
     let nworkers: u64 = get("-j").and_then(|s| s.parse().ok()).unwrap_or(cores.min(16));
     let end: Option<u64> = get("--cases").and_then(|s| s.parse().ok());
+    crate::driver::callwatch::configure(if tier == Tier::Thorough { 90 } else { 30 });
     let def = match checks::get(&check) {
         Some(d) => d,
         None => {
@@ -950,7 +984,7 @@ pub fn run_main(args: &[String]) -> i32 {
     for (sig, (idx, v, case, count)) in by_sig.iter().take(12) {
         // confirm in a fresh process
         let process_level = sig.ends_with("@process");
-        let r0 = exec_case_subprocess(case, true, if process_level { (def.cpu_limit_s * 2).clamp(30, 120) } else { 600 });
+        let r0 = exec_case_subprocess(case, true, if process_level { (def.cpu_limit_s * 4).clamp(300, 1800) } else { 600 });
         if !r0.sigs.iter().any(|s| s == sig) {
             eprintln!("HARNESS ERROR: violation {} of case {} does not reproduce in a fresh process (observed {:?})", sig, idx, r0.sigs);
             harness_error = true;
@@ -1046,6 +1080,11 @@ pub fn run_main(args: &[String]) -> i32 {
             "probes_stuck_at_zero": zero_probes,
             "inconclusive": st.inconclusive,
             "peak_live_bytes": res.agg.peak_mem,
+            "max_case_cpu_seconds": res.agg.max_case_cpu.0,
+            "max_case_cpu_case_index": res.agg.max_case_cpu.1,
+            "cpu_watchdog_limit_seconds": def.cpu_limit_s,
+            "max_library_call_cpu_seconds": res.agg.max_call_cpu,
+            "per_call_cpu_limit_seconds": crate::driver::callwatch::limit_s(),
             "known_finding_hits": st.known_hits,
             "known_findings": known_lines,
             "reported": reported,
